@@ -116,11 +116,11 @@ func ruleQRFormulas(c *Ctx) {
 				}
 				key := fmt.Sprintf("qr.charCountBits/mode%d/v%d", mode, v)
 				ret, err := returnAt(n, fn, map[string]int64{"m": mode, "vi.Version": v}, nil)
-				if err != nil {
-					c.Undecided(R8, key, fn.Pos(), err.Error())
-					continue
+				var got int64
+				ok := false
+				if err == nil {
+					got, ok = n.Norm(ret.Results[0]).IsConst()
 				}
-				got, ok := n.Norm(ret.Results[0]).IsConst()
 				if !ok {
 					// the widths kept in a package-level table: read it at this mode and version class
 					mp := fn.Params[1]
@@ -128,14 +128,35 @@ func ruleQRFormulas(c *Ctx) {
 					n.env = append(n.env, map[ssa.Value]Poly{mp: pConst(mode)})
 					savedFold := n.FoldTables
 					n.FoldTables = true
-					for _, cs := range n.valueCases(fn, nil, ret.Results[0], 0) {
-						if k, isC := cs.val.IsConst(); isC && evalCond(cs.cond, map[string]int64{"m": mode, "vi.Version": v}, nil) {
-							got, ok = k, true
+					at := map[string]int64{"m": mode, "vi.Version": v}
+					rets := []*ssa.Return{ret}
+					if err != nil {
+						// (also whether the mode is in the table at all decides which return is taken)
+						rets = nil
+						for _, r := range returnsOf(fn) {
+							rc := n.ReachCond(fn, nil, r.Block())
+							cv := &condVars{bases: map[string]map[int64]bool{}, bools: map[string]bool{}}
+							collect(rc, cv)
+							if len(cv.bools) == 0 && evalCond(rc, at, nil) {
+								rets = append(rets, r)
+							}
+						}
+					}
+					if len(rets) == 1 {
+						ret, err = rets[0], nil
+						for _, cs := range n.valueCases(fn, nil, ret.Results[0], 0) {
+							if k, isC := cs.val.IsConst(); isC && evalCond(cs.cond, at, nil) {
+								got, ok = k, true
+							}
 						}
 					}
 					n.FoldTables = savedFold
 					n.env = n.env[:len(n.env)-1]
 					n.Bind[mp] = "m"
+				}
+				if err != nil {
+					c.Undecided(R8, key, fn.Pos(), err.Error())
+					continue
 				}
 				c.Check(R8, key, ret.Pos(), ok && got == iso[mode][cls], fmt.Sprint(iso[mode][cls]), n.Norm(ret.Results[0]).String())
 			}
@@ -355,8 +376,11 @@ func ruleQRFormulas(c *Ctx) {
 		}
 		var bitsV ssa.Value
 		eachInstr(fn, func(b *ssa.BasicBlock, ins ssa.Instruction) {
-			if lk, ok := ins.(*ssa.Lookup); ok && lk.CommaOk {
+			if lk, ok := ins.(*ssa.Lookup); ok && !isStringType(lk.X.Type()) {
 				c.Check(R7, "qr.drawVersionInfo/key", lk.Pos(), n.Norm(lk.X).asAtom() == "global:qr.versionInfoBitsByVersion" && n.Norm(lk.Index).asAtom() == "vi.Version", "versionInfoBitsByVersion[vi.Version]", n.Norm(lk.X).asAtom()+"["+n.Norm(lk.Index).asAtom()+"]")
+				if !lk.CommaOk {
+					bitsV = lk // a missing entry reads as the nil slice: nothing is drawn
+				}
 				for _, r := range *lk.Referrers() {
 					if ex, ok := r.(*ssa.Extract); ok && ex.Index == 0 {
 						bitsV = ex
@@ -406,6 +430,8 @@ func ruleQRFormulas(c *Ctx) {
 				c.expectPoly(R7, fmt.Sprintf("qr.drawVersionInfo/set%d-x", k+1), call.Pos(), n, call.Common().Args[0], wx)
 				c.expectPoly(R7, fmt.Sprintf("qr.drawVersionInfo/set%d-y", k+1), call.Pos(), n, call.Common().Args[1], wy)
 				if iv := idx(call); iv != nil {
+					base := call.Common().Args[2].(*ssa.UnOp).X.(*ssa.IndexAddr).X
+					c.Check(R7, fmt.Sprintf("qr.drawVersionInfo/set%d-word", k+1), call.Pos(), n.Norm(base).asAtom() == "bits", "element of the version word", n.Norm(base).asAtom())
 					c.expectPoly(R7, fmt.Sprintf("qr.drawVersionInfo/set%d-bit", k+1), call.Pos(), n, iv, "len(bits) - i - 1")
 				} else {
 					c.Undecided(R7, fmt.Sprintf("qr.drawVersionInfo/set%d-bit", k+1), call.Pos(), "bit argument is not an element of the version word")
@@ -434,6 +460,7 @@ func ruleQRFormulas(c *Ctx) {
 		// loops: identify by the calls in their bodies
 		var addBit []*ssa.Call
 		addByte := map[int64]*ssa.Call{}
+		var padCalls []*ssa.Call // pad byte picked by a computed value (table of the two pad codewords)
 		eachInstr(fn, func(b *ssa.BasicBlock, ins ssa.Instruction) {
 			call, ok := ins.(*ssa.Call)
 			if !ok || calleeOf(call) == nil {
@@ -446,7 +473,7 @@ func ruleQRFormulas(c *Ctx) {
 				if k, ok := n.Norm(call.Common().Args[1]).IsConst(); ok {
 					addByte[k] = call
 				} else {
-					c.Check(R9, "qr.addPaddingAndTerminator/padbyte", call.Pos(), false, "constant pad byte", n.Norm(call.Common().Args[1]).String())
+					padCalls = append(padCalls, call)
 				}
 			}
 		})
@@ -485,7 +512,37 @@ func ruleQRFormulas(c *Ctx) {
 		c.Check(R9, "qr.addPaddingAndTerminator/terminator-loop", fn.Pos(), termOK, "terminator loop: at most 4 zero bits while Len < capacity", fmt.Sprint(termOK))
 		c.Check(R9, "qr.addPaddingAndTerminator/align-loop", fn.Pos(), alignOK, "zero bits while Len % 8 != 0", fmt.Sprint(alignOK))
 		c236, c17 := addByte[236], addByte[17]
-		if c236 == nil || c17 == nil || len(addByte) != 2 {
+		if len(padCalls) == 1 && len(addByte) == 0 {
+			// one AddByte whose argument is a choice (the pad codewords in a table, a selected value)
+			call := padCalls[0]
+			h := loopOf(call.Block())
+			if phi, init, ok := loopCounter(h); ok && h != nil {
+				n.Bind[phi] = "i"
+				c.Check(R9, "qr.addPaddingAndTerminator/pad-init", phi.Pos(), init == 0, "i starts at 0", fmt.Sprint(init))
+				reach := n.ReachCond(fn, h, call.Block())
+				var cs []valCase
+				for _, c0 := range n.valueCases(fn, h, call.Common().Args[1], 0) {
+					cs = append(cs, valCase{c0.val, cAnd(reach, c0.cond)})
+				}
+				for k, sp := range []edgeSpec{{"236", tmpl("bl.count < {cap} && i%2 == 0", m)}, {"17", tmpl("bl.count < {cap} && i%2 != 0", m)}} {
+					key := []string{"qr.addPaddingAndTerminator/pad236-iff", "qr.addPaddingAndTerminator/pad17-iff"}[k]
+					var found *Cond
+					for _, c0 := range cs {
+						if pEqual(c0.val, MustRef(sp.val)) {
+							found = c0.cond
+						}
+					}
+					if found == nil {
+						c.Check(R9, key, call.Pos(), false, sp.val+" when "+sp.cond, "value never appended")
+					} else {
+						c.expectCond(R9, key, call.Pos(), found, sp.cond)
+					}
+				}
+				c.Check(R9, "qr.addPaddingAndTerminator/padbytes", call.Pos(), len(cs) == 2, "pad bytes 236 and 17 only", fmt.Sprint(len(cs))+" alternatives")
+			} else {
+				c.Undecided(R9, "qr.addPaddingAndTerminator/pad-loop", call.Pos(), "pad bytes are not inside a counting loop")
+			}
+		} else if c236 == nil || c17 == nil || len(addByte) != 2 || len(padCalls) != 0 {
 			c.Check(R9, "qr.addPaddingAndTerminator/padbytes", fn.Pos(), false, "pad bytes 236 and 17", fmt.Sprint(len(addByte)))
 		} else {
 			h := loopOf(c236.Block())
@@ -536,16 +593,28 @@ func ruleQRFormulas(c *Ctx) {
 			c.Check(R5, "qr.findSmallestVersionInfo/ascending", vi.Pos(), isRange, "rows visited in table order from index 0, step 1", fmt.Sprint(isRange))
 			n.Bind[vi] = "vi"
 			m := map[string]string{"T": "vi.NumberOfBlocksInGroup1*vi.DataCodeWordsPerBlockInGroup1 + vi.NumberOfBlocksInGroup2*vi.DataCodeWordsPerBlockInGroup2"}
+			// charCountBits atom: the width is taken for this row and the requested mode (what the helper
+			// returns is Q8's subject)
+			ccb := "call:qr.(*versionInfo).charCountBits(vi,mode)"
+			for _, call := range callsTo(fn, c.P.Func("qr.(*versionInfo).charCountBits")) {
+				args := call.Common().Args
+				if len(args) == 2 && args[0] == vi && args[1] == ssa.Value(fn.Params[1]) {
+					n.Bind[call] = ccb
+				}
+			}
 			accept := cFalse
 			for _, ret := range returnsOf(fn) {
 				if isNilConst(ret.Results[0]) {
 					continue
 				}
 				c.Check(R5, "qr.findSmallestVersionInfo/returns-row", ret.Pos(), ret.Results[0] == vi, "the row that satisfied the guard", n.Norm(ret.Results[0]).String())
-				accept = cOr(accept, n.ReachCond(fn, nil, ret.Block()))
+				// the decision of one iteration: from the block that reads the row
+				var from *ssa.BasicBlock
+				if vb := vi.(ssa.Instruction).Block(); vb.Dominates(ret.Block()) {
+					from = vb
+				}
+				accept = cOr(accept, n.ReachCond(fn, from, ret.Block()))
 			}
-			// charCountBits atom
-			ccb := "call:qr.(*versionInfo).charCountBits(vi,mode)"
 			want := cAnd(MustRefCond("vi.Level == ecl"), cmpCond(token.GEQ, pScale(MustRef(tmpl("{T}", m)), 8), pAdd(MustRef("bits + 4"), pAtom(ccb), 1)))
 			c.expectCondC(R5, "qr.findSmallestVersionInfo/guard", fn.Pos(), accept, want)
 		}
@@ -587,6 +656,14 @@ func ruleQRFormulas(c *Ctx) {
 			}
 			if setAll != nil && call.Common().Value == ssa.Value(setAll) {
 				otherWrites = append(otherWrites, call)
+				return
+			}
+			// any other routine that is handed the marking function draws function patterns as well
+			for _, a := range call.Common().Args {
+				if setAll != nil && a == ssa.Value(setAll) {
+					otherWrites = append(otherWrites, call)
+					return
+				}
 			}
 		})
 		if finder == nil || align == nil || iter == nil {
@@ -615,7 +692,7 @@ func ruleQRFormulas(c *Ctx) {
 			got := n.NormAt(s, s.Ins.(*ssa.Call).Common().Args[2])
 			c.Check(R12, fmt.Sprintf("qr.splitToBlocks/calcECC#%d-count", k+1), s.Ins.Pos(), pEqual(got, MustRef("vi.ErrorCorrectionCodewordsPerBlock")), "vi.ErrorCorrectionCodewordsPerBlock", got.String())
 		}
-		c.Check(R12, "qr.splitToBlocks/calcECC-sites", fn.Pos(), len(sites) == 2, "calcECC reached in 2 contexts (group 1 and group 2)", fmt.Sprint(len(sites)))
+		fused := false
 		// receive counts: each receive sits in a loop nest bounded by (DataCodeWordsPerBlockInGroup g) inside (NumberOfBlocksInGroup g)
 		seenG := map[int]bool{}
 		c.P.deepEach(fn, 2, func(s DeepSite) {
@@ -623,14 +700,84 @@ func ruleQRFormulas(c *Ctx) {
 			if !ok || u.Op != token.ARROW {
 				return
 			}
-			bounds := enclosingLoopBounds(n, s)
+			bounds, idxs := enclosingLoops(n, s)
 			matched := 0
-			for g := 1; g <= 2; g++ {
-				if len(bounds) == 2 {
-					e1, _ := CondEquivalent(bounds[0], MustRefCond(fmt.Sprintf("i < vi.DataCodeWordsPerBlockInGroup%d", g)))
-					e2, _ := CondEquivalent(bounds[1], MustRefCond(fmt.Sprintf("i < vi.NumberOfBlocksInGroup%d", g)))
+			matchGroup := func(bs []*Cond) int {
+				for g := 1; g <= 2; g++ {
+					e1, _ := CondEquivalent(bs[0], MustRefCond(fmt.Sprintf("i < vi.DataCodeWordsPerBlockInGroup%d", g)))
+					e2, _ := CondEquivalent(bs[1], MustRefCond(fmt.Sprintf("i < vi.NumberOfBlocksInGroup%d", g)))
 					if e1 && e2 {
-						matched = g
+						return g
+					}
+				}
+				return 0
+			}
+			if len(bounds) == 2 {
+				matched = matchGroup(bounds)
+			}
+			if len(bounds) == 2 && matched == 0 {
+				// one loop over all blocks, the block length chosen by the block number:
+				// for b < N1+N2 { len := W1; if b >= N1 { len = W2 } ... }
+				if all, _ := CondEquivalent(bounds[1], MustRefCond("i < vi.NumberOfBlocksInGroup1 + vi.NumberOfBlocksInGroup2")); all {
+					outerHdr := idxs[1].(ssa.Instruction).Block()
+					for _, b := range fn.Blocks {
+						for _, ins := range b.Instrs {
+							phi, isPhi := ins.(*ssa.Phi)
+							if !isPhi || isLoopHeader(b) || !strings.Contains(bounds[0].String(), n.Norm(phi).String()) {
+								continue
+							}
+							when := map[int]*Cond{1: cFalse, 2: cFalse}
+							okAll := true
+							for ei := range phi.Edges {
+								n.PhiChoice[phi] = ei
+								g := 0
+								inner := enclosingLoopBounds(n, s)[0]
+								for gg := 1; gg <= 2; gg++ {
+									if eq, _ := CondEquivalent(inner, MustRefCond(fmt.Sprintf("i < vi.DataCodeWordsPerBlockInGroup%d", gg))); eq {
+										g = gg
+									}
+								}
+								old, had := n.Bind[idxs[1]]
+								n.Bind[idxs[1]] = "i"
+								cond := cAnd(n.ReachCond(fn, outerHdr, b.Preds[ei]), n.EdgeCond(b.Preds[ei], b))
+								if had {
+									n.Bind[idxs[1]] = old
+								} else {
+									delete(n.Bind, idxs[1])
+								}
+								if g == 0 {
+									okAll = false
+								} else {
+									when[g] = cOr(when[g], cond)
+								}
+							}
+							delete(n.PhiChoice, phi)
+							dom := MustRefCond("i >= 0 && i < vi.NumberOfBlocksInGroup1 + vi.NumberOfBlocksInGroup2")
+							e1, _ := CondEquivalent(cAnd(dom, when[1]), cAnd(dom, MustRefCond("i < vi.NumberOfBlocksInGroup1")))
+							e2, _ := CondEquivalent(cAnd(dom, when[2]), cAnd(dom, MustRefCond("i >= vi.NumberOfBlocksInGroup1")))
+							if okAll && e1 && e2 {
+								seenG[1], seenG[2] = true, true
+								fused = true
+								return
+							}
+						}
+					}
+				}
+			}
+			if len(bounds) == 3 {
+				// both groups handled by one loop nest that runs over a two-entry local table of
+				// (block count, block length): instantiate the outer loop per entry
+				if two, _ := CondEquivalent(bounds[2], MustRefCond("i < 2")); two {
+					var gs []int
+					for k := int64(0); k < 2; k++ {
+						n.env = append(n.env, map[ssa.Value]Poly{idxs[2]: pConst(k)})
+						gs = append(gs, matchGroup(enclosingLoopBounds(n, s)))
+						n.env = n.env[:len(n.env)-1]
+					}
+					if gs[0] == 1 && gs[1] == 2 {
+						seenG[1], seenG[2] = true, true
+						fused = true
+						return
 					}
 				}
 			}
@@ -644,13 +791,21 @@ func ruleQRFormulas(c *Ctx) {
 			seenG[matched] = true
 		})
 		c.Check(R12, "qr.splitToBlocks/receive-loops", fn.Pos(), seenG[1] && seenG[2], "one receive loop nest per group", fmt.Sprint(seenG))
+		c.Check(R12, "qr.splitToBlocks/calcECC-sites", fn.Pos(), len(sites) == 2 || fused && len(sites) == 1, "calcECC reached in 2 contexts (group 1 and group 2), or once in a nest shared by both groups", fmt.Sprint(len(sites)))
 	}
 }
 
 // enclosingLoopBounds: the continue-conditions (index named "i") of the counting loops around a
 // deep site, innermost first, across the chain of helper calls.
 func enclosingLoopBounds(n *Normer, s DeepSite) []*Cond {
+	out, _ := enclosingLoops(n, s)
+	return out
+}
+
+// enclosingLoops: enclosingLoopBounds together with the index value of each loop.
+func enclosingLoops(n *Normer, s DeepSite) ([]*Cond, []ssa.Value) {
 	var out []*Cond
+	var idxs []ssa.Value
 	saved := n.Ctx
 	defer func() { n.Ctx = saved }()
 	level := len(s.Path)
@@ -672,6 +827,7 @@ func enclosingLoopBounds(n *Normer, s DeepSite) []*Cond {
 				old, had := n.Bind[idx]
 				n.Bind[idx] = "i"
 				out = append(out, n.LoopCond(d))
+				idxs = append(idxs, idx)
 				if had {
 					n.Bind[idx] = old
 				} else {
@@ -685,7 +841,7 @@ func enclosingLoopBounds(n *Normer, s DeepSite) []*Cond {
 		level--
 		ins = s.Path[level]
 	}
-	return out
+	return out, idxs
 }
 
 // reachableWithin: can p be reached from b without leaving the blocks dominated by d?
